@@ -17,6 +17,7 @@ claimed = {
  "C18": dict(tech=TECH, ref="3 C18", text="Every interleaving of producers (all batch splits), jobs, a WaitIdle caller and a WatchState watcher on ConcurrentQueue with limit 1, 2 and unlimited: concurrency bound, exactly-once, FIFO for limit 1, count invariants on every reported pair, WaitIdle soundness and liveness at quiescence."),
  "C04": dict(tech=TECH, ref="3 C04", text="A controller issues every short word over the restart-causing calls (RoutineContainer and StateRoutineContainer, plus a retry back-off variant with freely firing timers) while instances return late after cancellation; every interleaving up to the bound; an active-instance counter and wait-channel watchers decide overlap."),
  "C05": dict(tech=TECH, ref="3 C05", text="Same exploration plus two concurrent controllers; at every controller return superseded instances must already be cancelled and at most one live instance exists; at quiescence the survivor must derive from the current context and have the latest state."),
+ "C07": dict(tech=TECH, ref="3 C07", text="Every schedule (within the bound) of a controller issuing words over restart/reset/context calls, removals (immediate, delayed, ClearContext, SyncKeys) and non-restarting calls against scripted key routines (run until cancelled with exit latency, fail then run) with freely firing retry and removal timers; per-key overlap, cancelled-on-removal, nothing-restarts and retry-survives oracles at call return and at quiescence."),
  "C01": dict(tech=TECH, ref="3 C01", text="Every interleaving (preemption bound 2 quick / 3 thorough) of 8+4 small client programs of csync.Mutex/RWMutex (Lock, TryLock, Locker, double release, cancellation) runs on the real code; an exact occupancy counter checks 'one writer or many readers' at every acquire."),
  "C02": dict(tech=TECH, ref="3 C02", text="Same exploration; liveness is decided exactly at every quiescent state of the controlled scheduler (nobody parked in a grantable Lock), cancelled waiters must return context.Canceled and leave the lock probe-able, readers may not overtake a waiting writer."),
 }
